@@ -8,7 +8,22 @@ Oracle: the *abstract* program / sweep / record array / device specification the
 (vf.workloads.wire_programs, vf.refmodel.wire_model - neither imports cirq) compared with what comes
 back from the wire format, through a structural comparator written here (per-gate fields at float32
 resolution where the proto field is a float, exactly where it is a double), a proto-level walk of the
-constants table, and a semantic check (product of per-operation unitaries via vf.refmodel.linalg)."""
+constants table, and a semantic check (product of per-operation unitaries via vf.refmodel.linalg).
+
+Genuine defects of the unchanged tree, each with its own mechanism key (a deterministic witness lives in the
+edge cases of sec_prog_edges / sec_args / sec_sweeps; the random sections avoid the trigger or classify it
+"explained-by" style - see structure_verdict and the FiniteRandomVariable branch of sec_sweeps):
+  C16:moment-tags-lost-on-constants-hit          constants table keyed by Moment equality, which ignores moment tags
+  C16:gate-specific-tag-moves-to-front           PhysicalZTag / FSimViaModelTag / TwoPulseFSimTag not first -> tag order changes
+  C16:circuit-operation-tags-dropped             tags of a tagged CircuitOperation are silently dropped
+  C16:internal-gate-unhashable-arg-typeerror     InternalGate with a list / ndarray argument: serialize raises TypeError
+  C16:depolarize-integral-probability-rejected   DepolarizingChannel(p=0.0 or 1.0) is written but cannot be read (int vs float)
+  C16:arg-sequence-with-none-indexerror          arg_to_proto([1, None]) raises IndexError
+  C16:set-with-uniform-tuple-unreadable          a set holding a uniform numeric tuple is written, reading raises TypeError
+  C16:device-parameter-idx-zero-dropped          DeviceParameter(idx=0) comes back with idx=None
+  C16:empty-points-sweep-indexerror              sweep_to_proto(cirq.Points(key, [])) raises IndexError
+  C16:finite-random-variable-values-depend-on-distribution-order   the drawn values depend on dict order, which the proto map loses
+"""
 from __future__ import annotations
 
 import copy
@@ -48,7 +63,7 @@ ASSUMPTIONS = [
     "qubit names that look like grid / line / coupler ids are parsed as such (documented in qubit_from_proto_id) and are not generated",
     "float32 tolerance rel 2e-7*|x| + 1e-7 (DESIGN 4.1); symbolic expressions compared by value at 3 points, tol 1e-5",
 ]
-MIN_EVAL = {"program-structure": 100, "program-unitary": 20, "proto-constants": 100, "sweep-assignments": 200,
+MIN_EVAL = {"v1-program-roundtrip": 100, "program-structure": 100, "program-unitary": 20, "proto-constants": 100, "sweep-assignments": 200,
             "pack-bits": 100, "results-roundtrip": 50, "device-validate": 200, "device-roundtrip": 20}
 MUST_REACH = [
     "cirq_google/serialization/circuit_serializer.py:CircuitSerializer._serialize_circuit",
@@ -76,6 +91,8 @@ MUST_REACH = [
     "cirq_google/api/v2/results.py:results_to_proto",
     "cirq_google/api/v2/results.py:results_from_proto",
     "cirq_google/api/v2/results.py:find_measurements",
+    "cirq_google/api/v1/programs.py:gate_to_proto",
+    "cirq_google/api/v1/programs.py:xmon_op_from_proto",
     "cirq_google/api/v1/programs.py:pack_results",
     "cirq_google/api/v1/programs.py:unpack_results",
     "cirq_google/devices/grid_device.py:GridDevice.from_proto",
@@ -2658,6 +2675,95 @@ def sec_devices(ctx, rng, case):
     ctx.sample({"gates": names, "qubits": keep, "pairs": pairs})
 
 
+# =============================================================================================== section: v1 programs
+def sec_v1_programs(ctx, rng, case):
+    """api.v1: gate_to_proto / xmon_op_from_proto / circuit_as_schedule_to_protos / circuit_from_schedule_from_protos.
+    The v1 format has three gate messages (ExpW, ExpZ, Exp11) and measurements; X/Y powers are *documented* to become
+    PhasedXPow gates, so gates are compared through their catalogue matrices (numeric) or fields (symbols)."""
+    cirq, v1, sympy = _S["cirq"], _S["v1"], _S["sympy"]
+    nq = int(rng.integers(1, 6))
+    qubits = WP.gen_qubits(rng, nq, "grid")
+    st = WP.State(rng, qubits, "full", bool(rng.random() < 0.4))
+
+    def par():
+        v = st.param()
+        return ("sym", v[2][0]) if is_marker(v, "expr") else v
+
+    specs = []
+    for _ in range(int(rng.integers(1, 14))):
+        kind = WP._wchoice(rng, {"XPow": 2, "YPow": 2, "ZPow": 2, "PhasedXPow": 2, "CZPow": 2 if nq > 1 else 0, "Measure": 1})
+        n = 2 if kind == "CZPow" else (int(rng.integers(1, nq + 1)) if kind == "Measure" else 1)
+        qs = [qubits[int(i)] for i in rng.permutation(nq)[:n]]
+        if kind == "Measure":
+            mask = tuple(bool(b) for b in rng.integers(0, 2, size=int(rng.integers(0, n + 1))))
+            p = {"key": WP._choice(rng, WP.KEYS) + str(len(specs)), "mask": mask}
+        elif kind == "PhasedXPow":
+            p = {"exponent": par(), "phase_exponent": par()}
+        else:
+            p = {"exponent": par()}
+        specs.append({"k": kind, "p": p, "q": qs, "t": [], "c": []})
+    ops = [b_op(o) for o in specs]
+    circuit = cirq.Circuit(ops)
+    flat = list(circuit.all_operations())
+    protos = list(v1.circuit_as_schedule_to_protos(circuit))
+    protos = [type(pb).FromString(pb.SerializeToString()) for pb in protos]
+    errs = []
+    if len(protos) != len(flat):
+        errs.append("%d protos for %d operations" % (len(protos), len(flat)))
+    else:
+        for i, (pb, op) in enumerate(zip(protos, flat)):
+            spec = next(sp for sp, o in zip(specs, ops) if o is op or o == op)
+            got = v1.xmon_op_from_proto(pb)
+            gq = [x_qubit(q) for q in got.qubits]
+            want_q = [tuple(q) for q in spec["q"]]
+            if gq != want_q and not (spec["k"] == "CZPow" and sorted(gq) == sorted(want_q)):
+                errs.append("op %d qubits %r != %r" % (i, gq, want_q))
+                continue
+            k, p, g = spec["k"], spec["p"], got.gate
+            if k == "Measure":
+                full = tuple(p["mask"]) + (False,) * (len(want_q) - len(p["mask"]))
+                if type(g) is not cirq.MeasurementGate or g.key != p["key"] or tuple(bool(b) for b in g.full_invert_mask()) != full:
+                    errs.append("op %d measurement %r != key %r mask %r" % (i, g, p["key"], full))
+                continue
+            want_cls = {"XPow": cirq.PhasedXPowGate, "YPow": cirq.PhasedXPowGate, "PhasedXPow": cirq.PhasedXPowGate,
+                        "ZPow": cirq.ZPowGate, "CZPow": cirq.CZPowGate}[k]
+            if not isinstance(g, want_cls):  # cirq.Z ** 1.0 is the _PauliZ subclass of ZPowGate
+                errs.append("op %d gate type %s, expected %s" % (i, type(g).__name__, want_cls.__name__))
+                continue
+            e = b_val(p["exponent"])
+            ph = {"XPow": 0.0, "YPow": 0.5}.get(k, b_val(p.get("phase_exponent", 0.0)))
+            r = cmp_param(e, g.exponent)
+            if r and is_realish(e) and is_realish(g.exponent):
+                # equal up to the period of the documented matrix
+                a = G.phased_xpow(0.0, float(e)) if want_cls is cirq.PhasedXPowGate else G.eigen_gate(k, float(e))
+                b = G.phased_xpow(0.0, float(g.exponent)) if want_cls is cirq.PhasedXPowGate else G.eigen_gate(k, float(g.exponent))
+                if L.phase_equal(a, b, 2e-6):
+                    r = None
+            if r:
+                errs.append("op %d exponent %s" % (i, r))
+            if want_cls is cirq.PhasedXPowGate:
+                gp = g.phase_exponent
+                r = cmp_param(ph, gp)
+                if r and is_realish(ph) and is_realish(gp):
+                    d = (float(ph) - float(gp)) % 2.0
+                    if min(d, 2.0 - d) <= 4e-7 * max(1.0, abs(float(ph))) + 1e-7:
+                        r = None
+                if r:
+                    errs.append("op %d phase_exponent %s" % (i, r))
+    back = v1.circuit_from_schedule_from_protos(protos)
+    if len(list(back.all_operations())) != len(flat):
+        errs.append("circuit_from_schedule_from_protos: %d operations, expected %d" % (len(list(back.all_operations())), len(flat)))
+    else:
+        for q in circuit.all_qubits():
+            a = [len(op.qubits) for op in circuit.all_operations() if q in op.qubits]
+            b = [len(op.qubits) for op in back.all_operations() if q in op.qubits]
+            if a != b:
+                errs.append("per-qubit operation sequence on %r changed" % (q,))
+    ctx.check(not errs, "v1-program-roundtrip", "C16:v1-program-roundtrip", lambda: "; ".join(errs[:3]), ops=specs)
+    ctx.distinct(("v1prog", repr(specs)), nontrivial=len(specs) >= 2)
+    ctx.sample({"v1_ops": [(o["k"], o["p"]) for o in specs][:4]})
+
+
 def _wrap(f):
     def g(ctx, rng, case):
         try:
@@ -2677,5 +2783,6 @@ SECTIONS = [
     ("sweeps", sec_sweeps, 10000, 400000, 0.8),
     ("results", sec_results, 7100, 200000, 2.5),
     ("devices", sec_devices, 1500, 60000, 1.2),
+    ("v1_programs", sec_v1_programs, 1400, 60000, 0.8),
 ]
 SECTIONS = [(n, _wrap(f), a, b, w) for (n, f, a, b, w) in SECTIONS]
